@@ -343,3 +343,17 @@ package ext
 //@   assert before reset: rbsStep == 1
 //@   ghostset after reset: rbsStep = 2
 //@   assert before Put: rbsStep == 2
+
+// C02 (the retry decision): when the parser only needs more bytes and the peek itself did not fail, the answer
+// is "need more" - whatever the buffered bytes look like - so the read loop retries with a longer peek. The
+// trailing-CRLF shortcut to EOF applies only after a failed peek.
+//@ ghost var heNeedMore bool
+//@ func HeaderError(typ, err, errParse, b) r
+//@   props C02
+//@   modifies heNeedMore
+//@   allocates
+//@   ghostset-at-entry heNeedMore = false
+//@   ghostset after Is#0: heNeedMore = result
+//@   top-ensures heNeedMore && err == nil ==> r == errNeedMore
+//@   top-ensures r != nil
+
